@@ -38,8 +38,8 @@ COMPONENTS = {
     "real": ["protocol_code_generator (run per tree)", "generated classes (constructor, properties, serialize, deserialize)", "EoReader/EoWriter"],
     "stub_or_harness": ["history generator", "spec/value generators", "reference spec parser (which members are public)"],
 }
-FAULT_KINDS = ["sibling_instance_created", "setattr_attempt", "delattr_attempt", "source_list_mutation", "returned_value_mutation_attempt"]
-PROBES = ["looked_at_like_a_python_object", "snapshot_unavailable", "member_unreadable_before_assignment", "serialize_into_shared_writer", "twin_instance_compared", "reincarnated_instance_compared", "serialize_into_nonempty_writer", "unserializable_instance_observed", "invalid_instance", "live_sequence_view_argument", "packet_write_method", "serialize_into_sanitising_writer", "array_element_mutation_attempt", "array_of_structs", "optional_array_present", "blob_on_deserialized_instance", "case_data_mutated_through_parent",
+FAULT_KINDS = ["preemption_between_lines", "sibling_instance_created", "setattr_attempt", "delattr_attempt", "source_list_mutation", "returned_value_mutation_attempt"]
+PROBES = ["receive_buffer_reused_after_deserialize", "two_caller_threads_interleaved", "looked_at_like_a_python_object", "snapshot_unavailable", "member_unreadable_before_assignment", "serialize_into_shared_writer", "twin_instance_compared", "reincarnated_instance_compared", "serialize_into_nonempty_writer", "unserializable_instance_observed", "invalid_instance", "live_sequence_view_argument", "packet_write_method", "serialize_into_sanitising_writer", "array_element_mutation_attempt", "array_of_structs", "optional_array_present", "blob_on_deserialized_instance", "case_data_mutated_through_parent",
           "one_shot_iterator_argument", "nested_instance_setattr", "byte_size_setattr", "first_serialize_failed_skipped",
           "tree_rejected", "returned_value_was_mutable"]
 
@@ -81,7 +81,13 @@ class Instance:
         if origin == "ctor":
             self.obj = self._build(value, [iter_mask])
         else:
-            self.obj = te.bridge.cls(cls_name).deserialize(te.EoReader(data))
+            self.receive_buffer = None
+            if data is not None and len(data) % 2 == 0 and len(data) > 0:
+                # the application reads into a receive buffer that it reuses for the next packet
+                self.receive_buffer = bytearray(data)
+                self.obj = te.bridge.cls(cls_name).deserialize(te.EoReader(self.receive_buffer))
+            else:
+                self.obj = te.bridge.cls(cls_name).deserialize(te.EoReader(data))
 
     def _build(self, value, mask):
         te = self.te
@@ -351,6 +357,10 @@ def run_history(inst, ops, res, tr, case, shape):
             first = firsts.get(sanitize)
             if first is None:
                 firsts[sanitize] = out
+                buf = getattr(inst, "receive_buffer", None)
+                if buf is not None and any(b != 0x2A for b in buf):
+                    buf[:] = b"*" * len(buf)        # the next packet arrives in the same buffer (same size: readers may still hold it)
+                    res.count("probe.receive_buffer_reused_after_deserialize")
                 if not isinstance(out, bytes):
                     res.count("probe.unserializable_instance_observed")     # must then fail the same way every time
             elif out != first:
@@ -540,8 +550,54 @@ def run_history(inst, ops, res, tr, case, shape):
             return viol("equal-instances-differ", inst.origin,
                         f"{inst.cls_name}: an instance built from the same {'arguments' if case['origin'] == 'ctor' else 'bytes'} "
                         f"serializes to {tb.hex() if isinstance(tb, bytes) else tb}, this one to {first.hex()}")
+    if case.get("interleave") and isinstance(first, bytes):
+        v = concurrent_callers(inst, ops, case, first, res, tr, viol)
+        if v:
+            return v
     return None
 
+
+
+def concurrent_callers(inst, ops, case, first, res, tr, viol):
+    """Two caller threads, each with its own writer, serialize at the same time under a scheduled interleaving
+    (sim/interleave.py): this instance in one thread; in the other the same instance or another one of its class.
+    Each must get exactly the bytes it gets alone."""
+    from ..interleave import Interleaver, InterleaveStall
+    te = inst.te
+    other, want_other = inst, first
+    for op in ops:
+        if op[0] == "sibling_ctor" and case["origin"] == "ctor":
+            try:
+                cand = Instance(te, inst.cls_name, "ctor", op[1], None, 0)
+                alone = cand.serialize()
+            except Exception:  # noqa
+                continue
+            if isinstance(alone, bytes):
+                other, want_other = cand, alone
+                break
+
+    def caller(target):
+        def run():
+            return [target.serialize() for _ in range(3)]
+        return run
+
+    il = Interleaver(case["interleave"], lambda filename: "eolib-verif-" in filename)
+    try:
+        results, errors = il.run(caller(inst), caller(other))
+    except InterleaveStall as e:
+        return viol("concurrent-callers-stalled", inst.origin, f"{inst.cls_name}: two caller threads serializing into their own writers "
+                    f"did not both finish ({e})")
+    res.count("probe.two_caller_threads_interleaved")
+    res.count("fault.preemption_between_lines", il.switches)
+    tr.ev("interleave", il.switches, tuple(il.lines), [r == w for r, w in ((results[0], [first] * 3), (results[1], [want_other] * 3))])
+    for k, (got, want, err) in enumerate(((results[0], first, errors[0]), (results[1], want_other, errors[1]))):
+        if err is not None or got != [want] * 3:
+            shown = f"raised {type(err).__name__}: {err}" if err is not None else [g.hex() if isinstance(g, bytes) else g for g in got]
+            return viol("concurrent-serialization-differs", inst.origin,
+                        f"{inst.cls_name}: caller thread {k} serializing {'this' if k == 0 or other is inst else 'another'} instance into its own "
+                        f"writers while a second thread did the same got {shown}; alone it gets {want.hex()} "
+                        f"(schedule {case['interleave'][:12]}..., {il.switches} switches)")
+    return None
 
 def execute(plan, env):
     res = Result()
@@ -598,6 +654,9 @@ def execute(plan, env):
                     continue
                 ops = gen_ops(inst, rng, rng.randrange(2, 31))
                 case["ops"] = ops
+                if rng.random() < 0.03:
+                    # a second caller thread serializes at the same time (its own writer; the same or another instance)
+                    case["interleave"] = [rng.randrange(1, 9) for _ in range(rng.randrange(4, 60))]
                 res.violation = run_history(inst, ops, res, tr, case, shape)
                 if res.violation:
                     break
